@@ -132,10 +132,11 @@ def minimise(check, case, clause, budget_s=90):
 
 def write_replay(check, case, violations, note=""):
     prop = _mod(check).PROPERTY
-    os.makedirs(os.path.join(VERIF, "replays"), exist_ok=True)
+    rdir = os.environ.get("VERIF_REPLAY_DIR") or os.path.join(VERIF, "replays")
+    os.makedirs(rdir, exist_ok=True)
     body = json.dumps(case, sort_keys=True, default=_jsondefault)
     tag = hashlib.sha256(body.encode()).hexdigest()[:10]
-    path = os.path.join(VERIF, "replays", "%s-%s-%s.json" % (prop, case.get("seed", "x"), tag))
+    path = os.path.join(rdir, "%s-%s-%s.json" % (prop, case.get("seed", "x"), tag))
     doc = {"property": prop, "check": check, "case": json.loads(body),
            "violations": violations, "note": note,
            "pythonhashseed": os.environ.get("PYTHONHASHSEED"),
